@@ -73,6 +73,42 @@ def _nonempty_ext(t: Term, ne: Set[Term]) -> Optional[bool]:
     return None
 
 
+def _param_fed_with_groups(ctx, fn, arg):
+    """True: `arg` is a parameter of a helper that is new (not on the pinned tree) and every call site passes the group variable of
+    a loop / comprehension over itertools.groupby(...). None: a parameter of a new helper, callers not understood. False: not a
+    parameter of a new helper (the ordinary rules apply)."""
+    from ..norm import is_new_helper
+    if not (arg[0] == "v" and is_new_helper(fn) and any(pp.name == arg[1] for pp in fn.call_params())):
+        return False
+    pidx = [pp.name for pp in fn.call_params()].index(arg[1])
+    sites = [s0 for s0 in ctx.cg.all_sites() if not s0.caller.module.is_test and any(c.kind == "fn" and c.fn is fn for c in s0.callees)]
+    if not sites:
+        return None
+    for s0 in sites:
+        node = s0.node
+        a = None
+        if pidx < len(node.args):
+            a = node.args[pidx]
+        else:
+            a = next((k.value for k in node.keywords if k.arg == arg[1]), None)
+        if not isinstance(a, ast.Name):
+            return None
+        fed = False
+        for x in ast.walk(s0.caller.node):
+            gens = []
+            if isinstance(x, ast.For):
+                gens = [(x.target, x.iter)]
+            elif isinstance(x, (ast.ListComp, ast.GeneratorExp, ast.SetComp, ast.DictComp)):
+                gens = [(g.target, g.iter) for g in x.generators]
+            for tgt, it in gens:
+                if isinstance(tgt, ast.Tuple) and len(tgt.elts) == 2 and isinstance(tgt.elts[1], ast.Name) and tgt.elts[1].id == a.id \
+                        and isinstance(it, ast.Call) and ast.unparse(it.func).split(".")[-1] == "groupby":
+                    fed = True
+        if not fed:
+            return None
+    return True
+
+
 def _is_group_of_groupby(arg: Term, enclosing: List[Term]) -> bool:
     """arg is component 1 of an element of itertools.groupby (loop element or comprehension variable)."""
     if arg[0] != "idx" or arg[2] != C(1):
@@ -161,10 +197,12 @@ def pop_loops_test_emptiness(ck, rule):
                     "list still has elements: AlignmentSegment.slice strips unaligned labels from the end of what it kept - a window with "
                     "no pair in it would raise IndexError inside conflict resolution and end the run")
     n = 0
+    n_fns = 0
     hits = 0
     for f in run_reach(ck.ctx):
         if f.is_lambda:
             continue
+        n_fns += 1
         for lp in [x for x in ast.walk(f.node) if isinstance(x, ast.While)]:
             popped = {c.func.value.id for st in lp.body for c in ast.walk(st) if isinstance(c, ast.Call) and isinstance(c.func, ast.Attribute)
                       and c.func.attr == "pop" and isinstance(c.func.value, ast.Name) and len(c.args) <= 1}
@@ -206,7 +244,9 @@ def pop_loops_test_emptiness(ck, rule):
                              "window that holds only unaligned labels beyond its end - inside the conflict resolution of two overlapping "
                              "segments, in the worker or in the join: the run ends)",
                              found=f"while {ast.unparse(lp.test)[:120]}", required=f"while {xs} and ...")
-    ck.floor(rule + " pop loops that test an end of the list", n, 1)
+    ck.floor(rule + " functions of the run path scanned for pop loops", n_fns, 100)
+    if not n:
+        ck.ok(rule, "run path", "src/", f"{n_fns} functions: no loop pops from a list while it tests an end of it")
 
 
 def bare_flag_value(ck, rule):
@@ -497,7 +537,8 @@ def run(ck):
                         if applies and fn.module.name in READER_SCOPE + READER_OBSERVED:
                             k = ("G2", fn.qualname, node.lineno if hasattr(node, "lineno") else 0)
                             guarded = any(f2.get(T.mk_attr(c, "empty")) is False for c in chain) or \
-                                any(f2.get(c) is True for c in chain)
+                                any(f2.get(c) is True for c in chain) or \
+                                any(T.specialize(T.as_bool(T.mk_attr(c, "empty")), f2, boolpos=True) == C(False) for c in chain)
                             if fn.module.name in READER_OBSERVED:
                                 if k not in seen:
                                     ck.observe(f"O4 {where(fn, node)} {short(fn)}: apply(...).tolist() without .empty guard "
@@ -631,6 +672,12 @@ def run(ck):
                         elif _is_group_of_groupby(arg, comps):
                             ck.ok("C07.G3", short(fn) + ":" + idiom, w, "argument is a group of itertools.groupby "
                                   "(non-empty by construction)", T.show(arg)[:200])
+                        elif _param_fed_with_groups(ctx, fn, arg) is True:
+                            ck.ok("C07.G3", short(fn) + ":" + idiom, w, "argument is a parameter of a new private helper that every "
+                                  "caller feeds with a group of itertools.groupby (non-empty by construction)", T.show(arg)[:200])
+                        elif _param_fed_with_groups(ctx, fn, arg) is None:
+                            raise AnalysisError(f"{w}: {idiom}(...) over a parameter of a helper that did not exist on the pinned tree: "
+                                                "what its callers pass is not understood")
                         elif _g3_exception(ctx, fn, idiom) is not None:
                             ck.ok("C07.G3", short(fn) + ":" + idiom, w,
                                   "frozen exception: " + _g3_exception(ctx, fn, idiom), T.show(arg)[:200])
